@@ -1,5 +1,5 @@
 CONSTANTS Mode = "lvl3"
-  NCand = 9
+  NCand = 5
 INIT Init
 NEXT Next
 INVARIANT TypeOK
